@@ -7,6 +7,7 @@ compiler's scalar `T r = a op b`) per component into o2 (o4).  The obligation is
 component and shape.  libm transcendentals are uninterpreted functions (same argument => same result), which is all that is needed.
 """
 from props.common import *
+import subprocess
 LEVEL = 'proof'
 CLAIM = ("For every catalogued component-wise operator and function (vector operators + - * / % & | ^ << >> ~ unary+- ++ -- == != && || and their "
          "compound/scalar/vec1 overload shapes; func_common, func_exponential, func_trigonometric, func_vector_relational, func_integer; ext/vector_common, "
@@ -55,15 +56,15 @@ class Case:
     def __init__(s, name, ins, outs, pre=None, mode='fp', known=(), unwind=16, side=True, veq=False, bounds='', timeout=None, solver='z3'):
         s.name = name; s.ins = ins; s.outs = outs; s.blocks = []; s.pre = pre; s.mode = mode; s.known = list(known); s.unwind = unwind
         s.side = side; s.veq = veq; s.bounds = bounds; s.timeout = timeout; s.solver = solver; s.n = 0
-    def raw(s, label, n, vcode, scode, indep=True):
-        s.blocks.append((label, n, s.n, vcode, scode, indep)); s.n += n; return s
+    def raw(s, label, n, vcode, scode, indep=True, base=0):
+        s.blocks.append((label, n, s.n, vcode, scode, indep, base)); s.n += n; return s
     def fn(s, label, vexpr, sexpr, n, scalar_result=False, indep=True):
         c0 = s.outs[0]
         v = ('$0[0] = (%s)(%s);' % (c0, vexpr)) if scalar_result else 'stv($0, %s);' % vexpr
         return s.raw(label, n, v, '$0[#] = (%s)(%s);' % (c0, sexpr), indep)
     def body(s):
         lines = []
-        for label, n, off, vcode, scode, indep in s.blocks:
+        for label, n, off, vcode, scode, indep, base in s.blocks:
             lines.append('  { ' + vcode.replace('$0', '(o+%d)' % off).replace('$1', '(o3+%d)' % off) + ' }')
             for i in range(n):
                 lines.append('  { ' + scode.replace('$0', '(o2+%d)' % off).replace('$1', '(o4+%d)' % off).replace('#', str(i)) + ' }')
@@ -75,23 +76,24 @@ class Case:
     def spec(s):
         def f(i, o):
             g = []
-            for label, n, off, vcode, scode, indep in s.blocks:
+            for label, n, off, vcode, scode, indep, base in s.blocks:
                 for ch, c in enumerate(s.outs):
                     for k in range(n):
-                        lab = '%s%s.%d' % (label, '' if ch == 0 else '.out%d' % (ch + 1), k)
+                        lab = '%s%s.%d' % (label, '' if ch == 0 else '.out%d' % (ch + 1), base + k)
                         g.append((lab, s.eq(c, o[2 * ch][off + k], o[2 * ch + 1][off + k])))
             return g
         return f
     def eq(s, c, x, y):
         if ct_kind(c) == 'f':
             if s.mode == 'real': return REq(x.r, y.r)
+            x = canon(bits_of(x)); y = canon(bits_of(y))
             if s.veq:       # same value (+0 == -0), or both NaN
                 return z3.Or(z3.fpEQ(fpv_of(x), fpv_of(y)), z3.And(z3.fpIsNaN(fpv_of(x)), z3.fpIsNaN(fpv_of(y))))
             return same_float(x, y)
         return x == y
     def mutant(s):
         """wrong spec (component 0 of the vector result against component 1 of the reference) - must be satisfiable"""
-        for label, n, off, vcode, scode, indep in s.blocks:
+        for label, n, off, vcode, scode, indep, base in s.blocks:
             if n >= 2 and indep:
                 c = s.outs[0]
                 def f(i, o, off=off, c=c):
@@ -99,6 +101,29 @@ class Case:
                     return [('shifted-index', s.eq(c, o[0][off], o[1][off + 1]))]
                 return f
         return None
+
+# clang orders the operands of commutative fadd/fmul differently in the two computations ((1-a)*x + a*y against y*a + x*(1-a)); IEEE addition and
+# multiplication are commutative (SMT-LIB FP has a single NaN), so both sides are rewritten to a canonical operand order before they are compared.
+_CANON = {}
+def canon(t):
+    k = t.get_id()
+    if k in _CANON: return _CANON[k][1]
+    if z3.is_app(t) and t.num_args() > 0:
+        ch = [canon(t.arg(j)) for j in range(t.num_args())]
+        dk = t.decl().kind()
+        if dk in (z3.Z3_OP_FPA_ADD, z3.Z3_OP_FPA_MUL) and len(ch) == 3:
+            a, b = ch[1], ch[2]
+            if str(a.sexpr()) > str(b.sexpr()): a, b = b, a
+            one = lambda v: z3.is_fp_value(v) and not v.isNaN() and not v.isInf() and z3.simplify(z3.fpEQ(v, z3.FPVal(1.0, v.sort()))).eq(z3.BoolVal(True)) and not v.isNegative()
+            if dk == z3.Z3_OP_FPA_MUL and (one(a) or one(b)): r = b if one(a) else a        # 1*x == x exactly for every x (clang folds it on one side only)
+            else: r = (z3.fpAdd if dk == z3.Z3_OP_FPA_ADD else z3.fpMul)(ch[0], a, b)
+        elif dk == z3.Z3_OP_FPA_TO_FP and len(ch) == 1 and z3.is_app(ch[0]) and ch[0].decl().kind() == z3.Z3_OP_FPA_TO_IEEE_BV and ch[0].arg(0).sort() == t.sort():
+            r = ch[0].arg(0)          # fpToFP(to_ieee_bv(x)) of a non-NaN-sensitive use: same FP value
+        elif any(not c.eq(t.arg(j)) for j, c in enumerate(ch)): r = t.decl()(*ch)
+        else: r = t
+    else: r = t
+    _CANON[k] = (t, r)     # keep t alive so that its id is not reused
+    return r
 
 # ------------------------------------------------------------------------------------------------ preconditions
 def p_all(*ps):
@@ -125,6 +150,11 @@ def p_shift(t, L):
         for y in i[1]:
             h.append(z3.ULT(zx(y, 64), z3.BitVecVal(W, 64)) if not issg(t) else z3.And(y >= 0, sx(y, 64) < W))
         return h
+    return pre
+def p_not_intmin(t, L):
+    """abs / sign / *PowerOfTwo negate their argument: INT_MIN is signed overflow (UB) in the scalar and the vector overload alike"""
+    if not issg(t): return None
+    def pre(i): return [x != bvv(1 << (wd(t) - 1), x) for x in i[0]]
     return pre
 def p_mult_pos(t, L):
     def pre(i): return [(y > 0) if issg(t) else (y != 0) for y in i[1]]
@@ -160,7 +190,7 @@ def binop_case(G, nm, op, only=None, skip=()):
 
 def unary_case(G):
     t, L, c = G.t, G.L, G.c; VT = G.VT(); Va = G.V('a')
-    C = Case('op_unary_L%d' % L, [(c, L)], [c], bounds='all values')
+    C = Case('op_unary_L%d' % L, [(c, L)], [c], bounds='all values', known=['KF-C01-vec34-negate-zero'] if isf(t) and L >= 3 else [])
     C.fn('plus', '+%s' % Va, '+a[#]', L)
     C.fn('neg', '-%s' % Va, '-a[#]', L)
     if not isf(t): C.fn('not', '~%s' % Va, '~a[#]', L)
@@ -197,7 +227,7 @@ def gen_probe(G):
     res = {}
     for nm, lab, C in out:
         if nm in res:
-            for b in C.blocks: res[nm].raw(b[0], b[1], b[3], b[4], b[5])
+            for b in C.blocks: res[nm].raw(b[0], b[1], b[3], b[4], b[5], b[6])
         else: res[nm] = C
     return list(res.values())
 
@@ -227,12 +257,12 @@ def fn_case(G, name, shapes, out='T', glm=None, sglm=None, pre=None, sexpr=None,
         C.fn(sh, v, s_, L)
     return C
 
-def fold_case(G, name, fexpr, out='T', ins_c=None, **kw):
-    """vector -> scalar reductions: reference is the left fold of the scalar operation"""
+def fold_case(G, name, fexpr, out='T', ins_c=None, init=None, **kw):
+    """vector -> scalar reductions: reference is the left fold of the scalar operation (from the identity element `init` if given, else from component 0)"""
     t, L, c = G.t, G.L, G.c; ic = ins_c or c
     oc = {'T': c, 'bool': 'bool'}[out]
     C = Case('%s_L%d' % (name, L), [(ic, L)], [oc], **kw)
-    r = 'a[0]'
+    r = 'a[0]' if init is None else fexpr % ('(%s)(%s)' % (c, init), 'a[0]')
     for k in range(1, L): r = fexpr % (r, 'a[%d]' % k)
     C.raw('fold', 1, '$0[0] = glm::%s(%s);' % (name, G.V('a', ic)), '$0[0] = (%s)(%s);' % (oc, r))
     return C
@@ -251,11 +281,11 @@ def p_bitfield(t, L, offk, bitk):
 
 def gen_common(G):
     t, L, c = G.t, G.L, G.c; o = []
-    o.append(fn_case(G, 'abs', ['v']))
+    o.append(fn_case(G, 'abs', ['v'], pre=p_not_intmin(t, L), bounds='all values except INT_MIN (signed overflow)' if issg(t) else 'all values'))
     o.append(fn_case(G, 'min', ['vv', 'vs'])); o.append(fn_case(G, 'max', ['vv', 'vs']))
     o.append(fn_case(G, 'clamp', ['vvv', 'vss']))
     o.append(fn_case(G, 'mix_bool', ['vvb', 'vvB'], glm='glm::mix'))
-    if issg(t) or isf(t): o.append(fn_case(G, 'sign', ['v']))
+    if issg(t) or isf(t): o.append(fn_case(G, 'sign', ['v'], pre=p_not_intmin(t, L), bounds='all values except INT_MIN (signed overflow)' if issg(t) else 'all values'))
     if isf(t):
         for f in ('floor', 'trunc', 'round', 'ceil', 'fract'): o.append(fn_case(G, f, ['v']))
         o.append(fn_case(G, 'roundEven', ['v'], side=False, bounds='all values; int(x) of |x| >= 2^31 or NaN (UB in both overloads) as the same unspecified function'))
@@ -315,10 +345,12 @@ def gen_int(G):
     t, L, c = G.t, G.L, G.c; o = []
     if isf(t) or t == 'bool': return o
     for f in ('bitCount', 'findLSB', 'findMSB'): o.append(fn_case(G, f, ['v'], out='int'))
-    o.append(fn_case(G, 'bitfieldReverse', ['v']))
+    if wd(t) >= 32:     # 8/16-bit instantiations of bitfieldReverse / bitfieldInsert do not compile (int-promoted mask against vec<L,T>), see C05
+        o.append(fn_case(G, 'bitfieldReverse', ['v']))
+        o.append(fn_case(G, 'bitfieldInsert', ['vvjj'], pre=p_bitfield(t, L, 2, 3), bounds='0 <= offset, 0 <= bits, offset+bits <= width'))
     o.append(fn_case(G, 'bitfieldExtract', ['vjj'], pre=p_bitfield(t, L, 1, 2), bounds='0 <= offset, 0 <= bits, offset+bits <= width'))
-    o.append(fn_case(G, 'bitfieldInsert', ['vvjj'], pre=p_bitfield(t, L, 2, 3), bounds='0 <= offset, 0 <= bits, offset+bits <= width'))
-    o.append(fn_case(G, 'isPowerOfTwo', ['v'], out='bool')); o.append(fn_case(G, 'nextPowerOfTwo', ['v'])); o.append(fn_case(G, 'prevPowerOfTwo', ['v']))
+    for f in ('isPowerOfTwo', 'nextPowerOfTwo', 'prevPowerOfTwo'):
+        o.append(fn_case(G, f, ['v'], out='bool' if f == 'isPowerOfTwo' else 'T', pre=p_not_intmin(t, L), bounds='all values except INT_MIN (abs overflows)' if issg(t) else 'all values'))
     o.append(fn_case(G, 'isMultiple', ['vv', 'vs'], out='bool', pre=p_mult_pos(t, L), solver='portfolio', timeout=120, bounds='multiple > 0'))
     o.append(fn_case(G, 'nextMultiple', ['vv', 'vs'], pre=p_mult_pos(t, L), solver='portfolio', timeout=120, bounds='multiple > 0'))
     o.append(fn_case(G, 'prevMultiple', ['vv', 'vs'], pre=p_mult_pos(t, L), solver='portfolio', timeout=120, bounds='multiple > 0'))
@@ -344,8 +376,8 @@ def gen_ext(G):
     if t == 'bool': return o
     o.append(fn_case(G, 'min3', ['vvv'], glm='glm::min')); o.append(fn_case(G, 'max3', ['vvv'], glm='glm::max'))
     o.append(fn_case(G, 'min4', ['vvvv'], glm='glm::min')); o.append(fn_case(G, 'max4', ['vvvv'], glm='glm::max'))
-    o.append(fold_case(G, 'compAdd', '(%s + %s)', veq=isf(t), bounds='all values; float: equal as values (the code starts from T(0), so compAdd(vec1(-0)) is +0)'))
-    o.append(fold_case(G, 'compMul', '(%s * %s)'))
+    o.append(fold_case(G, 'compAdd', '(%s)(%s + %s)'.replace('(%s)', '(' + c + ')', 1), init='0', bounds='all values; reference: left fold of scalar + from the empty sum T(0)'))
+    o.append(fold_case(G, 'compMul', '(%s)(%s * %s)'.replace('(%s)', '(' + c + ')', 1), init='1', bounds='all values; reference: left fold of scalar * from the empty product T(1)'))
     o.append(fold_case(G, 'compMin', 'glm::min(%s, %s)')); o.append(fold_case(G, 'compMax', 'glm::max(%s, %s)'))
     if isf(t):
         o.append(fn_case(G, 'fmin', ['vv', 'vs'])); o.append(fn_case(G, 'fmax', ['vv', 'vs']))
@@ -361,31 +393,36 @@ def gen_ext(G):
 
 MATS_Q = [(2, 2), (3, 2), (4, 4)]
 MATS_T = [(C_, R_) for C_ in (2, 3, 4) for R_ in (2, 3, 4)]
-def gen_mat(G, shapes):
+def gen_mat(G, shapes, probe=None):
     t, c = G.t, G.c; o = []
     for (Cn, Rn) in shapes:
         N = Cn * Rn; Ma, Mb, Mc = G.M('a', Cn, Rn), G.M('b', Cn, Rn), G.M('c', Cn, Rn); sfx = '_m%dx%d' % (Cn, Rn)
         C = Case('abs' + sfx, [(c, N)], [c], bounds='all values')
-        C.raw('m', N, 'stm($0, glm::abs(%s));' % Ma, '$0[#] = glm::abs(a[#]);'); o.append(C)
+        C.raw('m', N, 'stm($0, glm::abs(%s));' % Ma, '$0[#] = glm::abs(a[#]);')
+        if probe is None: o.append(C)
         C = Case('equal' + sfx, [(c, N), (c, N)], ['bool'], bounds='all values')
         for cc in range(Cn):
             idx = [cc * Rn + r for r in range(Rn)]
-            C.raw('equal.col%d' % cc, 1, 'glm::vec<%d,bool,glm::%s> r = glm::equal(%s, %s); $0[0] = r[%d];' % (Cn, G.q, Ma, Mb, cc), '$0[0] = %s;' % ' && '.join('(a[%d] == b[%d])' % (k, k) for k in idx))
-            C.raw('notEqual.col%d' % cc, 1, 'glm::vec<%d,bool,glm::%s> r = glm::notEqual(%s, %s); $0[0] = r[%d];' % (Cn, G.q, Ma, Mb, cc), '$0[0] = %s;' % ' || '.join('(a[%d] != b[%d])' % (k, k) for k in idx))
-        o.append(C)
+            C.raw('equal', 1, 'glm::vec<%d,bool,glm::%s> r = glm::equal(%s, %s); $0[0] = r[%d];' % (Cn, G.q, Ma, Mb, cc), '$0[0] = %s;' % ' && '.join('(a[%d] == b[%d])' % (k, k) for k in idx), base=cc)
+            C.raw('notEqual', 1, 'glm::vec<%d,bool,glm::%s> r = glm::notEqual(%s, %s); $0[0] = r[%d];' % (Cn, G.q, Ma, Mb, cc), '$0[0] = %s;' % ' || '.join('(a[%d] != b[%d])' % (k, k) for k in idx), base=cc)
+        if probe is None: o.append(C)
         if isf(t):
             C = Case('mix' + sfx, [(c, N), (c, N), (c, N)], [c], bounds='all values', timeout=90)
-            C.raw('scalar-a', N, 'stm($0, glm::mix(%s, %s, c[0]));' % (Ma, Mb), '$0[#] = glm::mix(a[#], b[#], c[0]);')
-            C.raw('matrix-a', N, 'stm($0, glm::mix(%s, %s, %s));' % (Ma, Mb, Mc), '$0[#] = glm::mix(a[#], b[#], c[#]);')
-            o.append(C)
+            if probe is None:
+                C.raw('scalar-a', N, 'stm($0, glm::mix(%s, %s, c[0]));' % (Ma, Mb), '$0[#] = glm::mix(a[#], b[#], c[0]);')
+            # mix(mat, mat, mat) needs operator-(T, mat), which only the square shapes declare: non-square instantiations do not compile (probe unit)
+            if (probe is None and Cn == Rn) or (probe == 'mixmat' and Cn != Rn):
+                C.raw('matrix-a', N, 'stm($0, glm::mix(%s, %s, %s));' % (Ma, Mb, Mc), '$0[#] = glm::mix(a[#], b[#], c[#]);')
+            if C.blocks: o.append(C)
+            if probe is not None: continue
             C = Case('equal_eps' + sfx, [(c, N), (c, N), (c, Cn)], ['bool'], bounds='all values')
             Ve = G.V('c', L=Cn)
             for cc in range(Cn):
                 idx = [cc * Rn + r for r in range(Rn)]
                 for lab, f, e, join in (('equal-s', 'equal', 'c[0]', ' && '), ('notEqual-s', 'notEqual', 'c[0]', ' || '), ('equal-v', 'equal', Ve, ' && '), ('notEqual-v', 'notEqual', Ve, ' || ')):
                     se = 'c[0]' if lab.endswith('-s') else 'c[%d]' % cc
-                    C.raw('%s.col%d' % (lab, cc), 1, 'glm::vec<%d,bool,glm::%s> r = glm::%s(%s, %s, %s); $0[0] = r[%d];' % (Cn, G.q, f, Ma, Mb, e, cc),
-                          '$0[0] = %s;' % join.join('glm::%s(a[%d], b[%d], %s)' % (f, k, k, se) for k in idx))
+                    C.raw(lab, 1, 'glm::vec<%d,bool,glm::%s> r = glm::%s(%s, %s, %s); $0[0] = r[%d];' % (Cn, G.q, f, Ma, Mb, e, cc),
+                          '$0[0] = %s;' % join.join('glm::%s(a[%d], b[%d], %s)' % (f, k, k, se) for k in idx), base=cc)
             o.append(C)
             C = Case('equal_ulp' + sfx, [(c, N), (c, N), ('int', Cn)], ['bool'], bounds='all values, all ULP counts', known=['KF-C01-ulp-equal-opposite-signs-mat'])
             Vi = G.V('c', 'int', Cn)
@@ -393,12 +430,18 @@ def gen_mat(G, shapes):
                 idx = [cc * Rn + r for r in range(Rn)]
                 for lab, f, e, join in (('equal-s', 'equal', 'c[0]', ' && '), ('notEqual-s', 'notEqual', 'c[0]', ' || '), ('equal-v', 'equal', Vi, ' && '), ('notEqual-v', 'notEqual', Vi, ' || ')):
                     se = 'c[0]' if lab.endswith('-s') else 'c[%d]' % cc
-                    C.raw('%s.col%d' % (lab, cc), 1, 'glm::vec<%d,bool,glm::%s> r = glm::%s(%s, %s, %s); $0[0] = r[%d];' % (Cn, G.q, f, Ma, Mb, e, cc),
-                          '$0[0] = %s;' % join.join('glm::%s(a[%d], b[%d], %s)' % (f, k, k, se) for k in idx))
+                    C.raw(lab, 1, 'glm::vec<%d,bool,glm::%s> r = glm::%s(%s, %s, %s); $0[0] = r[%d];' % (Cn, G.q, f, Ma, Mb, e, cc),
+                          '$0[0] = %s;' % join.join('glm::%s(a[%d], b[%d], %s)' % (f, k, k, se) for k in idx), base=cc)
             o.append(C)
     return o
 
 GROUPS = {'ops': gen_ops, 'common': gen_common, 'exptrig': gen_exptrig, 'rel': gen_rel, 'int': gen_int, 'ext': gen_ext}
+
+def _ulp_mat_region(res, col):
+    m = re.search(r'_m(\d)x(\d)$', res.fn.name); R = int(m.group(2))
+    a, b = res.ins[0], res.ins[1]
+    return z3.Or(*[(a[col * R + r] < 0) != (b[col * R + r] < 0) for r in range(R)])
+REGIONS = {'ulp_mat': _ulp_mat_region}
 
 # ------------------------------------------------------------------------------------------------ tiers -> units, jobs
 _BUILT = {}
@@ -426,13 +469,18 @@ def build(tier):
                 mk(group, t, ql, cases, split=2 if group in ('ops', 'exptrig', 'common') else 1)
             if t != 'bool':
                 mk('mat', t, ql, gen_mat(Ctx(t, 0, ql), MATS_Q if q else MATS_T))
-    # overload shapes that do not compile in the unchanged tree: compiled lazily inside the job
+    # overload shapes that do not compile in the unchanged tree: compiled lazily inside the job, reported as KNOWN-FINDING while they fail
     for t in (['f32', 'i32'] if q else ['f32', 'i32', 'u8', 'f64', 'i64']):
         cases = []
         for L in (3, 4): cases += gen_probe(Ctx(t, L, 'highp'))
         U = Unit('c01_probe_%s' % t, includes=INCLUDES)
         for C in cases: C.add_to(U)
-        jobs.append(('vec1_compound_probe_%s' % t, make_probe_job(U, cases)))
+        jobs.append(('vec1_compound_probe_%s' % t, make_probe_job(U, cases, 'KF-C01-vec1-compound-does-not-compile')))
+    for t in (['f32'] if q else FLOATS):
+        cases = gen_mat(Ctx(t, 0, 'highp'), [(3, 2)] if q else [m_ for m_ in MATS_T if m_[0] != m_[1]], probe='mixmat')
+        U = Unit('c01_probe_mixmat_%s' % t, includes=INCLUDES)
+        for C in cases: C.add_to(U)
+        jobs.append(('mix_nonsquare_probe_%s' % t, make_probe_job(U, cases, 'KF-C01-mix-nonsquare-matrix-does-not-compile')))
     _BUILT[tier] = (units, jobs)
     return _BUILT[tier]
 
@@ -443,19 +491,20 @@ def make_job(U, cases):
     def run(S):
         for C in cases: run_case(S, U, C)
     return run
-def make_probe_job(U, cases):
+def make_probe_job(U, cases, kid):
     def run(S):
-        try:
-            U.compile_ll()
-        except RuntimeError as e:
-            msg = str(e)
-            where = sorted(set(re.findall(r'(type_vec\d\.inl:\d+)', msg)))
-            kf = S.known.get('KF-C01-vec1-compound-does-not-compile')
-            if kf is not None and kf.get('status', 'open') == 'open' and 'no viable' in msg:
-                S.known_hits.append((kf['id'], kf['what'] + ' [clang: ' + ', '.join(where) + ']'))
-                S.rec(name=U.name + '.compile', kind='known-finding-probe', result='does-not-compile', status='known-finding', mandatory=False, note=msg[-600:])
+        src = os.path.join(scratch(), U.name + '.probe.%d.cpp' % os.getpid())
+        with open(src, 'w') as f: f.write(U.source())
+        p = subprocess.run(['clang++-14', '-std=c++17', '-fsyntax-only', '-w', '-I', REPO, src], capture_output=True, text=True)
+        os.unlink(src)
+        if p.returncode != 0:
+            errs = [re.sub(r'^.*/glm/', 'glm/', l)[:200] for l in p.stderr.split('\n') if ': error:' in l]
+            kf = S.known.get(kid)
+            if kf is not None and kf.get('status', 'open') == 'open' and errs:
+                S.known_hits.append((kf['id'], kf['what']))
+                S.rec(name=U.name + '.compile', kind='known-finding-probe', result='does-not-compile', status='known-finding', mandatory=False, note=' | '.join(errs[:8]))
                 return
-            raise
+            raise RuntimeError('probe unit %s does not compile and no open known finding %s: %s' % (U.name, kid, ' | '.join(errs[:4])))
         for C in cases: run_case(S, U, C)
     return run
 
